@@ -46,6 +46,17 @@ def _apply(variant, dst):
         if p.returncode != 0:
             p = subprocess.run(['patch', '-p1', '-s', '-i', variant['patch']], cwd=dst, capture_output=True, text=True)
         return p.returncode == 0
+    if 'pkg_all_fn' in variant:
+        pkg = os.path.join(dst, 'bitstring')
+        srcs = {fn: open(os.path.join(pkg, fn)).read() for fn in sorted(os.listdir(pkg)) if fn.endswith('.py') and fn != 'luts.py'}
+        new = variant['pkg_all_fn'](dict(srcs))
+        changed = False
+        for fn, txt in (new or {}).items():
+            if txt != srcs.get(fn):
+                ast.parse(txt)
+                open(os.path.join(pkg, fn), 'w').write(txt)
+                changed = True
+        return changed
     if 'pkg_fn' in variant:
         pkg = os.path.join(dst, 'bitstring')
         changed = False
